@@ -201,13 +201,16 @@ live groups with their `subsets` lists.  Loading: every dataset re-attaches its 
 `add_subset` (which sets `subset.data`); a subset that is listed by a group but attached to no
 saved dataset comes back with `data = None`; the new collection gets the datasets (no group is
 subscribed yet at that point), then `_subset_groups` and the hub subscriptions of exactly the
-saved groups, in order; `_sg_count` is restored.  Datasets and groups outside the collection are
-not part of the session: their (old) objects are untouched. -/
+saved groups, in order; `_sg_count` is restored.  Datasets outside the collection are not part of
+the session, and a `Data` object of the old session cannot be moved to the new hub (`Data has
+already been assigned to a different hub`): in the restored world a fresh `Data` object (no
+subsets) with the same label stands for each of them.  Removed groups of the old session are not
+part of the new one either; their old objects are left untouched. -/
 def restore (st : State) : State :=
   let owner (s : Sub) : Option Nat := st.datasets.find? (fun d => (st.dsubs d).contains s)
   { st with
     dsubs := fun d => if d ∈ st.datasets then (st.dsubs d).map (fun s => { s with data := some d })
-                      else st.dsubs d,
+                      else [],
     gsubs := fun g => if g ∈ st.groups then (st.gsubs g).map (fun s => { s with data := owner s })
                       else st.gsubs g,
     subs := st.groups }
